@@ -3,3 +3,4 @@ import RSVerif.Properties.C07
 #print axioms RS.inner_never_none
 #print axioms RS.err_transparent_enc
 #print axioms RS.err_transparent_dec
+#print axioms RS.source_err_changes_nothing
